@@ -139,6 +139,7 @@ impl UtpStreamReadHalf {
     ) -> Poll<std::io::Result<usize>> {
         let mut written = 0usize;
         let mut dispatcher_dead = false;
+        let mut waker_registered = false;
 
         while let Some(current_buf) = bufs.first_mut() {
             if current_buf.is_empty() {
@@ -191,6 +192,7 @@ impl UtpStreamReadHalf {
                     dispatcher_dead = true;
                 } else {
                     update_optional_waker(&mut g.reader_waker, cx);
+                    waker_registered = true;
                 }
                 break;
             }
@@ -212,6 +214,12 @@ impl UtpStreamReadHalf {
 
         if dispatcher_dead {
             return Poll::Ready(Err(std::io::Error::other("dispatcher dead")));
+        }
+
+        if !waker_registered {
+            // Nothing to fill (all buffers empty): a zero-length read completes immediately,
+            // returning Pending without a registered waker would hang forever.
+            return Poll::Ready(Ok(0));
         }
 
         Poll::Pending
